@@ -52,7 +52,10 @@ end XlVerif.Gen
     consts = [n.value for n in ast.walk(tree) if isinstance(n, ast.Constant) and isinstance(n.value, str)]
     err_list = [c for c in consts if c.startswith(',#')]
     cmp_list = [c for c in consts if re.fullmatch(r',(?:[<>=]{2},)+', c)]
-    sn = [c for c in consts if c.startswith('^[1-9]')]
+    # the scientific-notation regex: the string literal assigned to `regexSN` (whatever it says)
+    sn = [n.value.value for n in ast.walk(tree)
+          if isinstance(n, ast.Assign) and len(n.targets) == 1 and isinstance(n.targets[0], ast.Name)
+          and n.targets[0].id == 'regexSN' and isinstance(n.value, ast.Constant) and isinstance(n.value.value, str)]
     if len(err_list) != 1 or len(cmp_list) != 1 or len(sn) != 1:
         raise ValueError(f'tokenizer literals not found: {err_list} {cmp_list} {sn}')
     ops_plain = tokenizer.ExcelParser().OPERATORS
